@@ -438,11 +438,37 @@ def build_driver():
     drv = os.path.join(VERIF, "ocaml", "_build", "driver")
     mls = ["conv.ml", "ext.ml", "driver.ml"]
     srcs = [os.path.join(VERIF, "ocaml", f) for f in mls] + [os.path.join(COQ, "Extract.v")]
-    ok, log = coq_make(["Extract.vo"])
-    if not ok:
-        raise BuildError("extraction failed (models do not compile):\n" + log[-3000:])
     with _Lock():
+        ok, log = coq_make(["Extract.vo"])
+        if not ok:
+            # The regenerated model parts no longer pass their checked side conditions (the proof obligation is
+            # already reported as broken by the caller).  To SEARCH for a concrete failing input the correspondence
+            # still needs an executable model: fall back to the pinned generated files (tools/pinned/, the files the
+            # translators produced from the tree on which every theorem checked) and say so in the evidence.
+            swapped = _swap_in_pinned()
+            if swapped:
+                ok, log2 = coq_make(["Extract.vo"])
+                if ok:
+                    MODEL_FALLBACK[:] = swapped
+                else:
+                    log += "\n--- with pinned generated files:\n" + log2
+        if not ok:
+            raise BuildError("extraction failed (models do not compile):\n" + log[-3000:])
         return _build_driver_locked(exdir, drv, mls, srcs)
+
+
+MODEL_FALLBACK = []      # generated files replaced by their pinned version for the search (empty on a healthy tree)
+
+
+def _swap_in_pinned():
+    swapped = []
+    for g in GENERATED:
+        pin = os.path.join(VERIF, "tools", "pinned", g.replace("/", "_"))
+        cur = os.path.join(COQ, g)
+        if os.path.exists(pin) and (not os.path.exists(cur) or open(pin).read() != open(cur).read()):
+            shutil.copy(pin, cur)
+            swapped.append(g)
+    return swapped
 
 
 def _build_driver_locked(exdir, drv, mls, srcs):
@@ -531,6 +557,13 @@ class Result:
         self.cov["proof_wall_s"] = round(self.cov.get("proof_wall_s", 0) + pr["wall"], 1)
 
     def finish(self):
+        if MODEL_FALLBACK:
+            self.cov["model_fallback"] = ("the regenerated %s no longer compile with the model; the search for a failing input "
+                                          "ran the pinned versions (tools/pinned/)" % ", ".join(MODEL_FALLBACK))
+            if not any(ni for _, ni in self.violations):
+                self.violation(write_replay(self.prop, "translation", "obligation: the model parts regenerated from the "
+                               "current source (%s) no longer pass their checked side conditions; Extract.vo does not "
+                               "build with them" % ", ".join(MODEL_FALLBACK)), no_input=True)
         self.cov["distinct_nontrivial"] = len(self._distinct)
         self.cov["known_findings_seen"] = self.known
         write_evidence(self.prop, self.tier, self.seed, self.cov, self.assumptions, time.time() - self.t0,
